@@ -46,6 +46,10 @@ def jobs(tier, seed):
     start = {"fam": "f_glob", "knobs": {"cfg": 1}}
     broken = {"fam": "f_glob", "knobs": {"cfg": 1, "broken": 1}}
     out.append({"start": start, "first": ("broken=1", broken), "depth": 3})
+    # the same with one more creator level between the plan and the globbing script
+    start = {"fam": "f_glob", "knobs": {"cfg": 1, "mid": 1}}
+    broken = {"fam": "f_glob", "knobs": {"cfg": 1, "mid": 1, "broken": 1}}
+    out.append({"start": start, "first": ("broken=1", broken), "depth": 3})
     # conformance replays of the history engine against the real command line tool
     for fam in FAMILIES:
         if fam not in SCHEDULE_DEPENDENT_FAMILIES:
